@@ -47,7 +47,7 @@ def check(pid, tier, replay=None):
     if pid == "C02":
         wl, masks = (3, 5) if quick else (12, 10)
     elif pid == "C03":
-        wl, masks = (5, 1) if quick else (40, 1)
+        wl, masks = (5, 1) if quick else (15, 1)
     else:
         wl, masks = (60, 1) if quick else (1500, 1)
     env.update({"CRASH_WORKLOADS": wl, "CRASH_MASKS": masks})
